@@ -6,25 +6,25 @@ sys.path.insert(0, os.path.join(VERIF, 'harness'))
 import catalog
 props = [json.loads(l) for l in open(os.path.join(VERIF, 'properties.jsonl'))]
 ready = set(open(os.path.join(VERIF, 'harness', 'ready.txt')).read().split())
-claimed = sorted(set(h['property'] for h in catalog.HARNESSES) & ready)
+claimed = sorted((set(h['property'] for h in catalog.HARNESSES) | set(k for k, v in catalog.PROPERTY_INFO.items() if 'quick_cmd' in v)) & ready)
 checks = []
 for pid in claimed:
     info = catalog.PROPERTY_INFO.get(pid, {})
     hs = [h for h in catalog.HARNESSES if h['property'] == pid]
     checks.append(dict(
         property_id=pid,
-        quick_cmd='engine/vcheck %s --tier quick' % pid,
-        thorough_cmd='engine/vcheck %s --tier thorough' % pid,
+        quick_cmd=info.get('quick_cmd', 'engine/vcheck %s --tier quick' % pid),
+        thorough_cmd=info.get('thorough_cmd', 'engine/vcheck %s --tier thorough' % pid),
         evidence_file='evidence/%s.json' % pid,
         replay_cmd_template='engine/vcheck-replay {path}',
         engine='cbmc-on-lowered-ir',
         level_claimed=dict(category=info.get('level', 'model_checking'),
                            text=info.get('claim', 'Bounded model checking (CBMC/SAT) of the real functions lowered from /repo at check time: '
-                                         + '; '.join(h['desc'] for h in hs) + '. Holds for every value of the symbolic inputs within the stated bounds; nothing is claimed outside them.'),
+                                         + '; '.join([h['desc'] for h in hs] or [info.get('desc', '')]) + '. Holds for every value of the symbolic inputs within the stated bounds; nothing is claimed outside them.'),
                            design_ref='DESIGN.md section 4 ' + pid),
         level_note='Trusted: clang-14 -O1 lowering, engine/ll2c.py (IR->C), models in /verif/models (listed per harness in the evidence), CBMC 6.11. '
                    'Outside the claim: ' + info.get('outside', ''),
-        technique='bounded symbolic execution of clang-lowered real code (own LLVM-IR->C translator) decided by CBMC/SAT; counterexamples replayed natively'))
+        technique=info.get('technique', 'bounded symbolic execution of clang-lowered real code (own LLVM-IR->C translator) decided by CBMC/SAT; counterexamples replayed natively')))
 na = []
 for p in props:
     if p['id'] not in claimed:
